@@ -31,10 +31,25 @@ def C05_statement : Prop :=
 /-- what the two guards give: the invoice's final CLTV is at most csv/2 = 504, the amount is exact, and
     (when `start + 504` does not wrap) the payment is made at most 504 blocks after the start height -/
 theorem C05_guards (cltv : Int) (msat claim start hAwait now : Nat)
-    (hs : start + 504 < 4294967296) (hn : now < 4294967296) (hsn : start ≤ now)
+    (hs : start + 504 < 4294967296) (hn : now < 4294967296)
     (ha : awaitTxConfBtc bitcoinCsv cltv msat claim start hAwait = .ok)
     (hp : payIterationBtc bitcoinCsv start now = true) :
     cltv ≤ 504 ∧ msat = wrapU64 (claim * 1000) ∧ start ≠ 0 ∧ hAwait < start + 504 ∧ now ≤ start + 504 := by
+  -- a height BELOW the start height (the chain was reorganised back) wraps to a huge distance: no payment
+  have hsn : start ≤ now := by
+    apply Decidable.byContradiction
+    intro hlt
+    unfold payIterationBtc wrapU32i at hp
+    simp only [bitcoinCsv] at hp
+    have e : ((Int.ofNat now - Int.ofNat start) % 4294967296).toNat = 4294967296 + now - start := by
+      simp only [Int.ofNat_eq_coe]
+      have : ((now : Int) - (start : Int)) % 4294967296 = (now : Int) - (start : Int) + 4294967296 := by
+        rw [← Int.add_emod_right]
+        apply Int.emod_eq_of_lt <;> omega
+      rw [this]; omega
+    rw [e] at hp
+    simp at hp
+    omega
   unfold awaitTxConfBtc at ha
   by_cases h1 : cltv > Int.ofNat (bitcoinCsv / 2)
   · rw [if_pos h1] at ha; cases ha
@@ -72,12 +87,12 @@ theorem C05_guards (cltv : Int) (msat claim start hAwait now : Nat)
 /-- the property holds whenever the opening transaction confirmed late enough relative to the taker's
     start height: conf + 1008 > start + 504 + final + pad (e.g. final = 503 needs conf ≥ start + pad) -/
 theorem C05_partial (cltv : Int) (msat claim start hAwait now conf pad : Nat)
-    (hs : start + 504 < 4294967296) (hn : now < 4294967296) (hsn : start ≤ now)
+    (hs : start + 504 < 4294967296) (hn : now < 4294967296)
     (ha : awaitTxConfBtc bitcoinCsv cltv msat claim start hAwait = .ok)
     (hp : payIterationBtc bitcoinCsv start now = true)
     (hconf : start + 504 + cltv.toNat + pad < conf + bitcoinCsv) :
     htlcExpiry now cltv pad < conf + bitcoinCsv := by
-  have := C05_guards cltv msat claim start hAwait now hs hn hsn ha hp
+  have := C05_guards cltv msat claim start hAwait now hs hn ha hp
   unfold htlcExpiry
   omega
 
